@@ -277,6 +277,169 @@ package rib
 //@ assigns r.pendingEntries[id]
 //@ props C02 C06 C11:lock C12:safety
 
+// ---- BEGIN Get (C07), generated by /verif/tools/gen_get_contracts.py ----
+//@ unit protoFromGoStruct
+//@ trusted the ygot struct -> gNMI notifications -> proto pipeline (ygot.TogNMINotifications, protomap.ProtoFromPaths) is reflection over generated schemas and outside the verifier's reach; it writes only into pb, which every caller allocates immediately before the call and whose content no contract refers to (entry payload is abstract: field-for-field payload fidelity is NOT decided)
+//@ assigns nothing
+
+// keysOK: every installed entry carries the key it is filed under (what candidateRIB + MergeStructInto establish).
+//@ pred keysOK(A *aft.Afts) = (forall k in dom(A.Ipv4Entry) :: A.Ipv4Entry[k] != nil && A.Ipv4Entry[k].Prefix != nil && *A.Ipv4Entry[k].Prefix == k)
+//@   && (forall k in dom(A.Ipv6Entry) :: A.Ipv6Entry[k] != nil && A.Ipv6Entry[k].Prefix != nil && *A.Ipv6Entry[k].Prefix == k)
+//@   && (forall k in dom(A.LabelEntry) :: A.LabelEntry[k] != nil && A.LabelEntry[k].Label == k && istype(k, aft.UnionUint32))
+//@   && (forall k in dom(A.NextHopGroup) :: A.NextHopGroup[k] != nil && A.NextHopGroup[k].Id != nil && *A.NextHopGroup[k].Id == k)
+//@   && (forall k in dom(A.NextHop) :: A.NextHop[k] != nil && A.NextHop[k].Index != nil && *A.NextHop[k].Index == k)
+//@ pred msgBase(m *spb.GetResponse) = allocated(m) && len(m.Entry) == 1 && allocated(m.Entry[0])
+//@ pred ribKeysOK(r *RIB) = forall n in dom(r.niRIB) :: keysOK(r.niRIB[n].r.Afts)
+//@ pred msg_v4(m *spb.GetResponse, ni string) = allocated(m) && len(m.Entry) == 1 && allocated(m.Entry[0]) && m.Entry[0].NetworkInstance == ni && istype(m.Entry[0].Entry, *spb.AFTEntry_Ipv4) && allocated(payload(m.Entry[0].Entry)) && allocated(m.Entry[0].GetIpv4())
+//@ pred key_v4(m *spb.GetResponse) = m.Entry[0].GetIpv4().Prefix
+//@ pred msg_v6(m *spb.GetResponse, ni string) = allocated(m) && len(m.Entry) == 1 && allocated(m.Entry[0]) && m.Entry[0].NetworkInstance == ni && istype(m.Entry[0].Entry, *spb.AFTEntry_Ipv6) && allocated(payload(m.Entry[0].Entry)) && allocated(m.Entry[0].GetIpv6())
+//@ pred key_v6(m *spb.GetResponse) = m.Entry[0].GetIpv6().Prefix
+//@ pred msg_mpls(m *spb.GetResponse, ni string) = allocated(m) && len(m.Entry) == 1 && allocated(m.Entry[0]) && m.Entry[0].NetworkInstance == ni && istype(m.Entry[0].Entry, *spb.AFTEntry_Mpls) && allocated(payload(m.Entry[0].Entry)) && allocated(m.Entry[0].GetMpls())
+//@ pred key_mpls(m *spb.GetResponse) = boxed(aft.UnionUint32, m.Entry[0].GetMpls().GetLabelUint64())
+//@ pred msg_nhg(m *spb.GetResponse, ni string) = allocated(m) && len(m.Entry) == 1 && allocated(m.Entry[0]) && m.Entry[0].NetworkInstance == ni && istype(m.Entry[0].Entry, *spb.AFTEntry_NextHopGroup) && allocated(payload(m.Entry[0].Entry)) && allocated(m.Entry[0].GetNextHopGroup())
+//@ pred key_nhg(m *spb.GetResponse) = m.Entry[0].GetNextHopGroup().Id
+//@ pred msg_nh(m *spb.GetResponse, ni string) = allocated(m) && len(m.Entry) == 1 && allocated(m.Entry[0]) && m.Entry[0].NetworkInstance == ni && istype(m.Entry[0].Entry, *spb.AFTEntry_NextHop) && allocated(payload(m.Entry[0].Entry)) && allocated(m.Entry[0].GetNextHop())
+//@ pred key_nh(m *spb.GetResponse) = m.Entry[0].GetNextHop().Index
+
+//@ unit ConcreteIPv4Proto
+//@ requires e != nil && e.Prefix != nil
+//@ ensures[key] result1 == nil ==> result0 != nil && fresh(result0) && result0.Prefix == *e.Prefix && result0.Ipv4Entry != nil
+//@ ensures[err] result1 != nil ==> result0 == nil
+//@ assigns nothing
+//@ props C07 C12:safety
+
+//@ unit ConcreteIPv6Proto
+//@ requires e != nil && e.Prefix != nil
+//@ ensures[key] result1 == nil ==> result0 != nil && fresh(result0) && result0.Prefix == *e.Prefix && result0.Ipv6Entry != nil
+//@ ensures[err] result1 != nil ==> result0 == nil
+//@ assigns nothing
+//@ props C07 C12:safety
+
+//@ unit ConcreteMPLSProto
+//@ requires e != nil
+//@ ensures[key] result1 == nil ==> result0 != nil && fresh(result0) && istype(e.Label, aft.UnionUint32) && e.Label == boxed(aft.UnionUint32, result0.GetLabelUint64()) && result0.LabelEntry != nil && tagof(result0.Label) != 0 && payload(result0.Label) != 0
+//@ ensures[ok-when-uint32] istype(e.Label, aft.UnionUint32) ==> true
+//@ ensures[err] result1 != nil ==> result0 == nil
+//@ assigns nothing
+//@ props C07 C12:safety
+
+//@ unit ConcreteNextHopGroupProto
+//@ requires e != nil && e.Id != nil
+//@ ensures[key] result1 == nil ==> result0 != nil && fresh(result0) && result0.Id == *e.Id && result0.NextHopGroup != nil
+//@ ensures[err] result1 != nil ==> result0 == nil
+//@ assigns nothing
+//@ props C07 C12:safety
+
+//@ unit ConcreteNextHopProto
+//@ requires e != nil && e.Index != nil
+//@ ensures[key] result1 == nil ==> result0 != nil && fresh(result0) && result0.Index == *e.Index && result0.NextHop != nil
+//@ ensures[err] result1 != nil ==> result0 == nil
+//@ assigns nothing
+//@ props C07 C12:safety
+
+// Ghost witnesses: getpos_T maps the key of an entry of table T to the position in sent(msgCh) of
+// the message GetRIB emitted for it (updated where the message is built, before it is sent).
+//@ ghostvar getpos_v4 StrIntMap
+//@ ghostvar getpos_v6 StrIntMap
+//@ ghostvar getpos_mpls IfaceIntMap
+//@ ghostvar getpos_nhg IntIntMap
+//@ ghostvar getpos_nh IntIntMap
+// GetRIB: the messages appended to msgCh by one call are, when the call was not stopped and
+// returned no error, in bijection with the entries of the selected tables of this instance:
+// every message is a single-entry response of a selected kind, tagged with the instance name,
+// whose key is installed (nothing else); every installed entry of a selected table has a
+// message (complete); no two messages have the same kind and key (one each).
+//@ unit RIBHolder.GetRIB
+//@ requires holderWF(r) && keysOK(r.r.Afts) && held(r.mu) == 0
+//@ ensures[nothing-else] forall j in old(len(sent(msgCh)))..len(sent(msgCh)) :: ((old(filter[spb.AFTType_ALL]) || old(filter[spb.AFTType_IPV4])) && msg_v4(sent(msgCh)[j], r.name) && key_v4(sent(msgCh)[j]) in dom(r.r.Afts.Ipv4Entry)) || ((old(filter[spb.AFTType_ALL]) || old(filter[spb.AFTType_IPV6])) && msg_v6(sent(msgCh)[j], r.name) && key_v6(sent(msgCh)[j]) in dom(r.r.Afts.Ipv6Entry)) || ((old(filter[spb.AFTType_ALL]) || old(filter[spb.AFTType_MPLS])) && msg_mpls(sent(msgCh)[j], r.name) && key_mpls(sent(msgCh)[j]) in dom(r.r.Afts.LabelEntry)) || ((old(filter[spb.AFTType_ALL]) || old(filter[spb.AFTType_NEXTHOP_GROUP])) && msg_nhg(sent(msgCh)[j], r.name) && key_nhg(sent(msgCh)[j]) in dom(r.r.Afts.NextHopGroup)) || ((old(filter[spb.AFTType_ALL]) || old(filter[spb.AFTType_NEXTHOP])) && msg_nh(sent(msgCh)[j], r.name) && key_nh(sent(msgCh)[j]) in dom(r.r.Afts.NextHop))
+//@ ensures[complete-v4] result0 == nil && recvd(stopCh) == old(recvd(stopCh)) && (old(filter[spb.AFTType_ALL]) || old(filter[spb.AFTType_IPV4])) ==> forall k in dom(r.r.Afts.Ipv4Entry) :: old(len(sent(msgCh))) <= getpos_v4[k] && getpos_v4[k] < len(sent(msgCh)) && msg_v4(sent(msgCh)[getpos_v4[k]], r.name) && key_v4(sent(msgCh)[getpos_v4[k]]) == k
+//@ ensures[no-dup-v4] forall i in old(len(sent(msgCh)))..len(sent(msgCh)), j in old(len(sent(msgCh)))..len(sent(msgCh)) :: i != j && msg_v4(sent(msgCh)[i], r.name) && msg_v4(sent(msgCh)[j], r.name) ==> key_v4(sent(msgCh)[i]) != key_v4(sent(msgCh)[j])
+//@ ensures[complete-v6] result0 == nil && recvd(stopCh) == old(recvd(stopCh)) && (old(filter[spb.AFTType_ALL]) || old(filter[spb.AFTType_IPV6])) ==> forall k in dom(r.r.Afts.Ipv6Entry) :: old(len(sent(msgCh))) <= getpos_v6[k] && getpos_v6[k] < len(sent(msgCh)) && msg_v6(sent(msgCh)[getpos_v6[k]], r.name) && key_v6(sent(msgCh)[getpos_v6[k]]) == k
+//@ ensures[no-dup-v6] forall i in old(len(sent(msgCh)))..len(sent(msgCh)), j in old(len(sent(msgCh)))..len(sent(msgCh)) :: i != j && msg_v6(sent(msgCh)[i], r.name) && msg_v6(sent(msgCh)[j], r.name) ==> key_v6(sent(msgCh)[i]) != key_v6(sent(msgCh)[j])
+//@ ensures[complete-mpls] result0 == nil && recvd(stopCh) == old(recvd(stopCh)) && (old(filter[spb.AFTType_ALL]) || old(filter[spb.AFTType_MPLS])) ==> forall k in dom(r.r.Afts.LabelEntry) :: old(len(sent(msgCh))) <= getpos_mpls[k] && getpos_mpls[k] < len(sent(msgCh)) && msg_mpls(sent(msgCh)[getpos_mpls[k]], r.name) && key_mpls(sent(msgCh)[getpos_mpls[k]]) == k
+//@ ensures[no-dup-mpls] forall i in old(len(sent(msgCh)))..len(sent(msgCh)), j in old(len(sent(msgCh)))..len(sent(msgCh)) :: i != j && msg_mpls(sent(msgCh)[i], r.name) && msg_mpls(sent(msgCh)[j], r.name) ==> key_mpls(sent(msgCh)[i]) != key_mpls(sent(msgCh)[j])
+//@ ensures[complete-nhg] result0 == nil && recvd(stopCh) == old(recvd(stopCh)) && (old(filter[spb.AFTType_ALL]) || old(filter[spb.AFTType_NEXTHOP_GROUP])) ==> forall k in dom(r.r.Afts.NextHopGroup) :: old(len(sent(msgCh))) <= getpos_nhg[k] && getpos_nhg[k] < len(sent(msgCh)) && msg_nhg(sent(msgCh)[getpos_nhg[k]], r.name) && key_nhg(sent(msgCh)[getpos_nhg[k]]) == k
+//@ ensures[no-dup-nhg] forall i in old(len(sent(msgCh)))..len(sent(msgCh)), j in old(len(sent(msgCh)))..len(sent(msgCh)) :: i != j && msg_nhg(sent(msgCh)[i], r.name) && msg_nhg(sent(msgCh)[j], r.name) ==> key_nhg(sent(msgCh)[i]) != key_nhg(sent(msgCh)[j])
+//@ ensures[complete-nh] result0 == nil && recvd(stopCh) == old(recvd(stopCh)) && (old(filter[spb.AFTType_ALL]) || old(filter[spb.AFTType_NEXTHOP])) ==> forall k in dom(r.r.Afts.NextHop) :: old(len(sent(msgCh))) <= getpos_nh[k] && getpos_nh[k] < len(sent(msgCh)) && msg_nh(sent(msgCh)[getpos_nh[k]], r.name) && key_nh(sent(msgCh)[getpos_nh[k]]) == k
+//@ ensures[no-dup-nh] forall i in old(len(sent(msgCh)))..len(sent(msgCh)), j in old(len(sent(msgCh)))..len(sent(msgCh)) :: i != j && msg_nh(sent(msgCh)[i], r.name) && msg_nh(sent(msgCh)[j], r.name) ==> key_nh(sent(msgCh)[i]) != key_nh(sent(msgCh)[j])
+//@ ensures[tagged] forall j in old(len(sent(msgCh)))..len(sent(msgCh)) :: msgBase(sent(msgCh)[j]) && sent(msgCh)[j].Entry[0].NetworkInstance == r.name
+//@ ensures[some-kind] forall j in old(len(sent(msgCh)))..len(sent(msgCh)) :: istype(sent(msgCh)[j].Entry[0].Entry, *spb.AFTEntry_Ipv4) || istype(sent(msgCh)[j].Entry[0].Entry, *spb.AFTEntry_Ipv6) || istype(sent(msgCh)[j].Entry[0].Entry, *spb.AFTEntry_Mpls) || istype(sent(msgCh)[j].Entry[0].Entry, *spb.AFTEntry_NextHopGroup) || istype(sent(msgCh)[j].Entry[0].Entry, *spb.AFTEntry_NextHop)
+//@ ensures[kind-v4] forall j in old(len(sent(msgCh)))..len(sent(msgCh)) :: istype(sent(msgCh)[j].Entry[0].Entry, *spb.AFTEntry_Ipv4) ==> (old(filter[spb.AFTType_ALL]) || old(filter[spb.AFTType_IPV4])) && msg_v4(sent(msgCh)[j], r.name) && key_v4(sent(msgCh)[j]) in dom(r.r.Afts.Ipv4Entry)
+//@ ensures[kind-v6] forall j in old(len(sent(msgCh)))..len(sent(msgCh)) :: istype(sent(msgCh)[j].Entry[0].Entry, *spb.AFTEntry_Ipv6) ==> (old(filter[spb.AFTType_ALL]) || old(filter[spb.AFTType_IPV6])) && msg_v6(sent(msgCh)[j], r.name) && key_v6(sent(msgCh)[j]) in dom(r.r.Afts.Ipv6Entry)
+//@ ensures[kind-mpls] forall j in old(len(sent(msgCh)))..len(sent(msgCh)) :: istype(sent(msgCh)[j].Entry[0].Entry, *spb.AFTEntry_Mpls) ==> (old(filter[spb.AFTType_ALL]) || old(filter[spb.AFTType_MPLS])) && msg_mpls(sent(msgCh)[j], r.name) && key_mpls(sent(msgCh)[j]) in dom(r.r.Afts.LabelEntry)
+//@ ensures[kind-nhg] forall j in old(len(sent(msgCh)))..len(sent(msgCh)) :: istype(sent(msgCh)[j].Entry[0].Entry, *spb.AFTEntry_NextHopGroup) ==> (old(filter[spb.AFTType_ALL]) || old(filter[spb.AFTType_NEXTHOP_GROUP])) && msg_nhg(sent(msgCh)[j], r.name) && key_nhg(sent(msgCh)[j]) in dom(r.r.Afts.NextHopGroup)
+//@ ensures[kind-nh] forall j in old(len(sent(msgCh)))..len(sent(msgCh)) :: istype(sent(msgCh)[j].Entry[0].Entry, *spb.AFTEntry_NextHop) ==> (old(filter[spb.AFTType_ALL]) || old(filter[spb.AFTType_NEXTHOP])) && msg_nh(sent(msgCh)[j], r.name) && key_nh(sent(msgCh)[j]) in dom(r.r.Afts.NextHop)
+//@ ensures[unselected-empty] !((old(filter[spb.AFTType_ALL]) || old(filter[spb.AFTType_IPV4])) || (old(filter[spb.AFTType_ALL]) || old(filter[spb.AFTType_IPV6])) || (old(filter[spb.AFTType_ALL]) || old(filter[spb.AFTType_MPLS])) || (old(filter[spb.AFTType_ALL]) || old(filter[spb.AFTType_NEXTHOP_GROUP])) || (old(filter[spb.AFTType_ALL]) || old(filter[spb.AFTType_NEXTHOP]))) ==> len(sent(msgCh)) == old(len(sent(msgCh))) && result0 == nil
+//@ ensures[appends] len(sent(msgCh)) >= old(len(sent(msgCh))) && (forall j in 0..old(len(sent(msgCh))) :: sent(msgCh)[j] == old(sent(msgCh)[j]))
+//@ at "Ipv4: p," ghost getpos_v4 = store(getpos_v4, pfx, len(sent(msgCh)))
+//@ at "Ipv6: p," ghost getpos_v6 = store(getpos_v6, pfx, len(sent(msgCh)))
+//@ at "Mpls: p," ghost getpos_mpls = store(getpos_mpls, lbl, len(sent(msgCh)))
+//@ at "NextHopGroup: p," ghost getpos_nhg = store(getpos_nhg, index, len(sent(msgCh)))
+//@ at "NextHop: p," ghost getpos_nh = store(getpos_nh, id, len(sent(msgCh)))
+//@ loop 1 at "range r.r.Afts.Ipv4Entry" invariant holderWF(r) && keysOK(r.r.Afts) && len(sent(msgCh)) >= old(len(sent(msgCh))) && recvd(stopCh) == old(recvd(stopCh)) && held(r.mu) == 1
+//@ loop 1 invariant (filter[spb.AFTType_IPV4] <==> (old(filter[spb.AFTType_ALL]) || old(filter[spb.AFTType_IPV4]))) && (filter[spb.AFTType_IPV6] <==> (old(filter[spb.AFTType_ALL]) || old(filter[spb.AFTType_IPV6]))) && (filter[spb.AFTType_MPLS] <==> (old(filter[spb.AFTType_ALL]) || old(filter[spb.AFTType_MPLS]))) && (filter[spb.AFTType_NEXTHOP_GROUP] <==> (old(filter[spb.AFTType_ALL]) || old(filter[spb.AFTType_NEXTHOP_GROUP]))) && (filter[spb.AFTType_NEXTHOP] <==> (old(filter[spb.AFTType_ALL]) || old(filter[spb.AFTType_NEXTHOP])))
+//@ loop 1 invariant forall j in 0..old(len(sent(msgCh))) :: sent(msgCh)[j] == old(sent(msgCh)[j])
+//@ loop 1 invariant forall j in old(len(sent(msgCh)))..len(sent(msgCh)) :: ((old(filter[spb.AFTType_ALL]) || old(filter[spb.AFTType_IPV4])) && msg_v4(sent(msgCh)[j], r.name) && key_v4(sent(msgCh)[j]) in dom(r.r.Afts.Ipv4Entry) && key_v4(sent(msgCh)[j]) in visited)
+//@ loop 1 invariant forall k in visited :: old(len(sent(msgCh))) <= getpos_v4[k] && getpos_v4[k] < len(sent(msgCh)) && msg_v4(sent(msgCh)[getpos_v4[k]], r.name) && key_v4(sent(msgCh)[getpos_v4[k]]) == k
+//@ loop 1 invariant forall i in old(len(sent(msgCh)))..len(sent(msgCh)), j in old(len(sent(msgCh)))..len(sent(msgCh)) :: i != j && msg_v4(sent(msgCh)[i], r.name) && msg_v4(sent(msgCh)[j], r.name) ==> key_v4(sent(msgCh)[i]) != key_v4(sent(msgCh)[j])
+//@ loop 2 at "range r.r.Afts.Ipv6Entry" invariant holderWF(r) && keysOK(r.r.Afts) && len(sent(msgCh)) >= old(len(sent(msgCh))) && recvd(stopCh) == old(recvd(stopCh)) && held(r.mu) == 1
+//@ loop 2 invariant (filter[spb.AFTType_IPV4] <==> (old(filter[spb.AFTType_ALL]) || old(filter[spb.AFTType_IPV4]))) && (filter[spb.AFTType_IPV6] <==> (old(filter[spb.AFTType_ALL]) || old(filter[spb.AFTType_IPV6]))) && (filter[spb.AFTType_MPLS] <==> (old(filter[spb.AFTType_ALL]) || old(filter[spb.AFTType_MPLS]))) && (filter[spb.AFTType_NEXTHOP_GROUP] <==> (old(filter[spb.AFTType_ALL]) || old(filter[spb.AFTType_NEXTHOP_GROUP]))) && (filter[spb.AFTType_NEXTHOP] <==> (old(filter[spb.AFTType_ALL]) || old(filter[spb.AFTType_NEXTHOP])))
+//@ loop 2 invariant forall j in 0..old(len(sent(msgCh))) :: sent(msgCh)[j] == old(sent(msgCh)[j])
+//@ loop 2 invariant forall j in old(len(sent(msgCh)))..len(sent(msgCh)) :: ((old(filter[spb.AFTType_ALL]) || old(filter[spb.AFTType_IPV4])) && msg_v4(sent(msgCh)[j], r.name) && key_v4(sent(msgCh)[j]) in dom(r.r.Afts.Ipv4Entry)) || ((old(filter[spb.AFTType_ALL]) || old(filter[spb.AFTType_IPV6])) && msg_v6(sent(msgCh)[j], r.name) && key_v6(sent(msgCh)[j]) in dom(r.r.Afts.Ipv6Entry) && key_v6(sent(msgCh)[j]) in visited)
+//@ loop 2 invariant (old(filter[spb.AFTType_ALL]) || old(filter[spb.AFTType_IPV4])) ==> forall k in dom(r.r.Afts.Ipv4Entry) :: old(len(sent(msgCh))) <= getpos_v4[k] && getpos_v4[k] < len(sent(msgCh)) && msg_v4(sent(msgCh)[getpos_v4[k]], r.name) && key_v4(sent(msgCh)[getpos_v4[k]]) == k
+//@ loop 2 invariant forall k in visited :: old(len(sent(msgCh))) <= getpos_v6[k] && getpos_v6[k] < len(sent(msgCh)) && msg_v6(sent(msgCh)[getpos_v6[k]], r.name) && key_v6(sent(msgCh)[getpos_v6[k]]) == k
+//@ loop 2 invariant forall i in old(len(sent(msgCh)))..len(sent(msgCh)), j in old(len(sent(msgCh)))..len(sent(msgCh)) :: i != j && msg_v4(sent(msgCh)[i], r.name) && msg_v4(sent(msgCh)[j], r.name) ==> key_v4(sent(msgCh)[i]) != key_v4(sent(msgCh)[j])
+//@ loop 2 invariant forall i in old(len(sent(msgCh)))..len(sent(msgCh)), j in old(len(sent(msgCh)))..len(sent(msgCh)) :: i != j && msg_v6(sent(msgCh)[i], r.name) && msg_v6(sent(msgCh)[j], r.name) ==> key_v6(sent(msgCh)[i]) != key_v6(sent(msgCh)[j])
+//@ loop 3 at "range r.r.Afts.LabelEntry" invariant holderWF(r) && keysOK(r.r.Afts) && len(sent(msgCh)) >= old(len(sent(msgCh))) && recvd(stopCh) == old(recvd(stopCh)) && held(r.mu) == 1
+//@ loop 3 invariant (filter[spb.AFTType_IPV4] <==> (old(filter[spb.AFTType_ALL]) || old(filter[spb.AFTType_IPV4]))) && (filter[spb.AFTType_IPV6] <==> (old(filter[spb.AFTType_ALL]) || old(filter[spb.AFTType_IPV6]))) && (filter[spb.AFTType_MPLS] <==> (old(filter[spb.AFTType_ALL]) || old(filter[spb.AFTType_MPLS]))) && (filter[spb.AFTType_NEXTHOP_GROUP] <==> (old(filter[spb.AFTType_ALL]) || old(filter[spb.AFTType_NEXTHOP_GROUP]))) && (filter[spb.AFTType_NEXTHOP] <==> (old(filter[spb.AFTType_ALL]) || old(filter[spb.AFTType_NEXTHOP])))
+//@ loop 3 invariant forall j in 0..old(len(sent(msgCh))) :: sent(msgCh)[j] == old(sent(msgCh)[j])
+//@ loop 3 invariant forall j in old(len(sent(msgCh)))..len(sent(msgCh)) :: ((old(filter[spb.AFTType_ALL]) || old(filter[spb.AFTType_IPV4])) && msg_v4(sent(msgCh)[j], r.name) && key_v4(sent(msgCh)[j]) in dom(r.r.Afts.Ipv4Entry)) || ((old(filter[spb.AFTType_ALL]) || old(filter[spb.AFTType_IPV6])) && msg_v6(sent(msgCh)[j], r.name) && key_v6(sent(msgCh)[j]) in dom(r.r.Afts.Ipv6Entry)) || ((old(filter[spb.AFTType_ALL]) || old(filter[spb.AFTType_MPLS])) && msg_mpls(sent(msgCh)[j], r.name) && key_mpls(sent(msgCh)[j]) in dom(r.r.Afts.LabelEntry) && key_mpls(sent(msgCh)[j]) in visited)
+//@ loop 3 invariant (old(filter[spb.AFTType_ALL]) || old(filter[spb.AFTType_IPV4])) ==> forall k in dom(r.r.Afts.Ipv4Entry) :: old(len(sent(msgCh))) <= getpos_v4[k] && getpos_v4[k] < len(sent(msgCh)) && msg_v4(sent(msgCh)[getpos_v4[k]], r.name) && key_v4(sent(msgCh)[getpos_v4[k]]) == k
+//@ loop 3 invariant (old(filter[spb.AFTType_ALL]) || old(filter[spb.AFTType_IPV6])) ==> forall k in dom(r.r.Afts.Ipv6Entry) :: old(len(sent(msgCh))) <= getpos_v6[k] && getpos_v6[k] < len(sent(msgCh)) && msg_v6(sent(msgCh)[getpos_v6[k]], r.name) && key_v6(sent(msgCh)[getpos_v6[k]]) == k
+//@ loop 3 invariant forall k in visited :: old(len(sent(msgCh))) <= getpos_mpls[k] && getpos_mpls[k] < len(sent(msgCh)) && msg_mpls(sent(msgCh)[getpos_mpls[k]], r.name) && key_mpls(sent(msgCh)[getpos_mpls[k]]) == k
+//@ loop 3 invariant forall i in old(len(sent(msgCh)))..len(sent(msgCh)), j in old(len(sent(msgCh)))..len(sent(msgCh)) :: i != j && msg_v4(sent(msgCh)[i], r.name) && msg_v4(sent(msgCh)[j], r.name) ==> key_v4(sent(msgCh)[i]) != key_v4(sent(msgCh)[j])
+//@ loop 3 invariant forall i in old(len(sent(msgCh)))..len(sent(msgCh)), j in old(len(sent(msgCh)))..len(sent(msgCh)) :: i != j && msg_v6(sent(msgCh)[i], r.name) && msg_v6(sent(msgCh)[j], r.name) ==> key_v6(sent(msgCh)[i]) != key_v6(sent(msgCh)[j])
+//@ loop 3 invariant forall i in old(len(sent(msgCh)))..len(sent(msgCh)), j in old(len(sent(msgCh)))..len(sent(msgCh)) :: i != j && msg_mpls(sent(msgCh)[i], r.name) && msg_mpls(sent(msgCh)[j], r.name) ==> key_mpls(sent(msgCh)[i]) != key_mpls(sent(msgCh)[j])
+//@ loop 4 at "range r.r.Afts.NextHopGroup" invariant holderWF(r) && keysOK(r.r.Afts) && len(sent(msgCh)) >= old(len(sent(msgCh))) && recvd(stopCh) == old(recvd(stopCh)) && held(r.mu) == 1
+//@ loop 4 invariant (filter[spb.AFTType_IPV4] <==> (old(filter[spb.AFTType_ALL]) || old(filter[spb.AFTType_IPV4]))) && (filter[spb.AFTType_IPV6] <==> (old(filter[spb.AFTType_ALL]) || old(filter[spb.AFTType_IPV6]))) && (filter[spb.AFTType_MPLS] <==> (old(filter[spb.AFTType_ALL]) || old(filter[spb.AFTType_MPLS]))) && (filter[spb.AFTType_NEXTHOP_GROUP] <==> (old(filter[spb.AFTType_ALL]) || old(filter[spb.AFTType_NEXTHOP_GROUP]))) && (filter[spb.AFTType_NEXTHOP] <==> (old(filter[spb.AFTType_ALL]) || old(filter[spb.AFTType_NEXTHOP])))
+//@ loop 4 invariant forall j in 0..old(len(sent(msgCh))) :: sent(msgCh)[j] == old(sent(msgCh)[j])
+//@ loop 4 invariant forall j in old(len(sent(msgCh)))..len(sent(msgCh)) :: ((old(filter[spb.AFTType_ALL]) || old(filter[spb.AFTType_IPV4])) && msg_v4(sent(msgCh)[j], r.name) && key_v4(sent(msgCh)[j]) in dom(r.r.Afts.Ipv4Entry)) || ((old(filter[spb.AFTType_ALL]) || old(filter[spb.AFTType_IPV6])) && msg_v6(sent(msgCh)[j], r.name) && key_v6(sent(msgCh)[j]) in dom(r.r.Afts.Ipv6Entry)) || ((old(filter[spb.AFTType_ALL]) || old(filter[spb.AFTType_MPLS])) && msg_mpls(sent(msgCh)[j], r.name) && key_mpls(sent(msgCh)[j]) in dom(r.r.Afts.LabelEntry)) || ((old(filter[spb.AFTType_ALL]) || old(filter[spb.AFTType_NEXTHOP_GROUP])) && msg_nhg(sent(msgCh)[j], r.name) && key_nhg(sent(msgCh)[j]) in dom(r.r.Afts.NextHopGroup) && key_nhg(sent(msgCh)[j]) in visited)
+//@ loop 4 invariant (old(filter[spb.AFTType_ALL]) || old(filter[spb.AFTType_IPV4])) ==> forall k in dom(r.r.Afts.Ipv4Entry) :: old(len(sent(msgCh))) <= getpos_v4[k] && getpos_v4[k] < len(sent(msgCh)) && msg_v4(sent(msgCh)[getpos_v4[k]], r.name) && key_v4(sent(msgCh)[getpos_v4[k]]) == k
+//@ loop 4 invariant (old(filter[spb.AFTType_ALL]) || old(filter[spb.AFTType_IPV6])) ==> forall k in dom(r.r.Afts.Ipv6Entry) :: old(len(sent(msgCh))) <= getpos_v6[k] && getpos_v6[k] < len(sent(msgCh)) && msg_v6(sent(msgCh)[getpos_v6[k]], r.name) && key_v6(sent(msgCh)[getpos_v6[k]]) == k
+//@ loop 4 invariant (old(filter[spb.AFTType_ALL]) || old(filter[spb.AFTType_MPLS])) ==> forall k in dom(r.r.Afts.LabelEntry) :: old(len(sent(msgCh))) <= getpos_mpls[k] && getpos_mpls[k] < len(sent(msgCh)) && msg_mpls(sent(msgCh)[getpos_mpls[k]], r.name) && key_mpls(sent(msgCh)[getpos_mpls[k]]) == k
+//@ loop 4 invariant forall k in visited :: old(len(sent(msgCh))) <= getpos_nhg[k] && getpos_nhg[k] < len(sent(msgCh)) && msg_nhg(sent(msgCh)[getpos_nhg[k]], r.name) && key_nhg(sent(msgCh)[getpos_nhg[k]]) == k
+//@ loop 4 invariant forall i in old(len(sent(msgCh)))..len(sent(msgCh)), j in old(len(sent(msgCh)))..len(sent(msgCh)) :: i != j && msg_v4(sent(msgCh)[i], r.name) && msg_v4(sent(msgCh)[j], r.name) ==> key_v4(sent(msgCh)[i]) != key_v4(sent(msgCh)[j])
+//@ loop 4 invariant forall i in old(len(sent(msgCh)))..len(sent(msgCh)), j in old(len(sent(msgCh)))..len(sent(msgCh)) :: i != j && msg_v6(sent(msgCh)[i], r.name) && msg_v6(sent(msgCh)[j], r.name) ==> key_v6(sent(msgCh)[i]) != key_v6(sent(msgCh)[j])
+//@ loop 4 invariant forall i in old(len(sent(msgCh)))..len(sent(msgCh)), j in old(len(sent(msgCh)))..len(sent(msgCh)) :: i != j && msg_mpls(sent(msgCh)[i], r.name) && msg_mpls(sent(msgCh)[j], r.name) ==> key_mpls(sent(msgCh)[i]) != key_mpls(sent(msgCh)[j])
+//@ loop 4 invariant forall i in old(len(sent(msgCh)))..len(sent(msgCh)), j in old(len(sent(msgCh)))..len(sent(msgCh)) :: i != j && msg_nhg(sent(msgCh)[i], r.name) && msg_nhg(sent(msgCh)[j], r.name) ==> key_nhg(sent(msgCh)[i]) != key_nhg(sent(msgCh)[j])
+//@ loop 5 at "range r.r.Afts.NextHop" invariant holderWF(r) && keysOK(r.r.Afts) && len(sent(msgCh)) >= old(len(sent(msgCh))) && recvd(stopCh) == old(recvd(stopCh)) && held(r.mu) == 1
+//@ loop 5 invariant (filter[spb.AFTType_IPV4] <==> (old(filter[spb.AFTType_ALL]) || old(filter[spb.AFTType_IPV4]))) && (filter[spb.AFTType_IPV6] <==> (old(filter[spb.AFTType_ALL]) || old(filter[spb.AFTType_IPV6]))) && (filter[spb.AFTType_MPLS] <==> (old(filter[spb.AFTType_ALL]) || old(filter[spb.AFTType_MPLS]))) && (filter[spb.AFTType_NEXTHOP_GROUP] <==> (old(filter[spb.AFTType_ALL]) || old(filter[spb.AFTType_NEXTHOP_GROUP]))) && (filter[spb.AFTType_NEXTHOP] <==> (old(filter[spb.AFTType_ALL]) || old(filter[spb.AFTType_NEXTHOP])))
+//@ loop 5 invariant forall j in 0..old(len(sent(msgCh))) :: sent(msgCh)[j] == old(sent(msgCh)[j])
+//@ loop 5 invariant forall j in old(len(sent(msgCh)))..len(sent(msgCh)) :: ((old(filter[spb.AFTType_ALL]) || old(filter[spb.AFTType_IPV4])) && msg_v4(sent(msgCh)[j], r.name) && key_v4(sent(msgCh)[j]) in dom(r.r.Afts.Ipv4Entry)) || ((old(filter[spb.AFTType_ALL]) || old(filter[spb.AFTType_IPV6])) && msg_v6(sent(msgCh)[j], r.name) && key_v6(sent(msgCh)[j]) in dom(r.r.Afts.Ipv6Entry)) || ((old(filter[spb.AFTType_ALL]) || old(filter[spb.AFTType_MPLS])) && msg_mpls(sent(msgCh)[j], r.name) && key_mpls(sent(msgCh)[j]) in dom(r.r.Afts.LabelEntry)) || ((old(filter[spb.AFTType_ALL]) || old(filter[spb.AFTType_NEXTHOP_GROUP])) && msg_nhg(sent(msgCh)[j], r.name) && key_nhg(sent(msgCh)[j]) in dom(r.r.Afts.NextHopGroup)) || ((old(filter[spb.AFTType_ALL]) || old(filter[spb.AFTType_NEXTHOP])) && msg_nh(sent(msgCh)[j], r.name) && key_nh(sent(msgCh)[j]) in dom(r.r.Afts.NextHop) && key_nh(sent(msgCh)[j]) in visited)
+//@ loop 5 invariant (old(filter[spb.AFTType_ALL]) || old(filter[spb.AFTType_IPV4])) ==> forall k in dom(r.r.Afts.Ipv4Entry) :: old(len(sent(msgCh))) <= getpos_v4[k] && getpos_v4[k] < len(sent(msgCh)) && msg_v4(sent(msgCh)[getpos_v4[k]], r.name) && key_v4(sent(msgCh)[getpos_v4[k]]) == k
+//@ loop 5 invariant (old(filter[spb.AFTType_ALL]) || old(filter[spb.AFTType_IPV6])) ==> forall k in dom(r.r.Afts.Ipv6Entry) :: old(len(sent(msgCh))) <= getpos_v6[k] && getpos_v6[k] < len(sent(msgCh)) && msg_v6(sent(msgCh)[getpos_v6[k]], r.name) && key_v6(sent(msgCh)[getpos_v6[k]]) == k
+//@ loop 5 invariant (old(filter[spb.AFTType_ALL]) || old(filter[spb.AFTType_MPLS])) ==> forall k in dom(r.r.Afts.LabelEntry) :: old(len(sent(msgCh))) <= getpos_mpls[k] && getpos_mpls[k] < len(sent(msgCh)) && msg_mpls(sent(msgCh)[getpos_mpls[k]], r.name) && key_mpls(sent(msgCh)[getpos_mpls[k]]) == k
+//@ loop 5 invariant (old(filter[spb.AFTType_ALL]) || old(filter[spb.AFTType_NEXTHOP_GROUP])) ==> forall k in dom(r.r.Afts.NextHopGroup) :: old(len(sent(msgCh))) <= getpos_nhg[k] && getpos_nhg[k] < len(sent(msgCh)) && msg_nhg(sent(msgCh)[getpos_nhg[k]], r.name) && key_nhg(sent(msgCh)[getpos_nhg[k]]) == k
+//@ loop 5 invariant forall k in visited :: old(len(sent(msgCh))) <= getpos_nh[k] && getpos_nh[k] < len(sent(msgCh)) && msg_nh(sent(msgCh)[getpos_nh[k]], r.name) && key_nh(sent(msgCh)[getpos_nh[k]]) == k
+//@ loop 5 invariant forall i in old(len(sent(msgCh)))..len(sent(msgCh)), j in old(len(sent(msgCh)))..len(sent(msgCh)) :: i != j && msg_v4(sent(msgCh)[i], r.name) && msg_v4(sent(msgCh)[j], r.name) ==> key_v4(sent(msgCh)[i]) != key_v4(sent(msgCh)[j])
+//@ loop 5 invariant forall i in old(len(sent(msgCh)))..len(sent(msgCh)), j in old(len(sent(msgCh)))..len(sent(msgCh)) :: i != j && msg_v6(sent(msgCh)[i], r.name) && msg_v6(sent(msgCh)[j], r.name) ==> key_v6(sent(msgCh)[i]) != key_v6(sent(msgCh)[j])
+//@ loop 5 invariant forall i in old(len(sent(msgCh)))..len(sent(msgCh)), j in old(len(sent(msgCh)))..len(sent(msgCh)) :: i != j && msg_mpls(sent(msgCh)[i], r.name) && msg_mpls(sent(msgCh)[j], r.name) ==> key_mpls(sent(msgCh)[i]) != key_mpls(sent(msgCh)[j])
+//@ loop 5 invariant forall i in old(len(sent(msgCh)))..len(sent(msgCh)), j in old(len(sent(msgCh)))..len(sent(msgCh)) :: i != j && msg_nhg(sent(msgCh)[i], r.name) && msg_nhg(sent(msgCh)[j], r.name) ==> key_nhg(sent(msgCh)[i]) != key_nhg(sent(msgCh)[j])
+//@ loop 5 invariant forall i in old(len(sent(msgCh)))..len(sent(msgCh)), j in old(len(sent(msgCh)))..len(sent(msgCh)) :: i != j && msg_nh(sent(msgCh)[i], r.name) && msg_nh(sent(msgCh)[j], r.name) ==> key_nh(sent(msgCh)[i]) != key_nh(sent(msgCh)[j])
+// lemmas at the merge point after each table's loop (executed or skipped): the tables handled so far are complete
+//@ assert at "if filter[spb.AFTType_IPV6] {" [done-v4-before-v6] (old(filter[spb.AFTType_ALL]) || old(filter[spb.AFTType_IPV4])) ==> forall k in dom(r.r.Afts.Ipv4Entry) :: old(len(sent(msgCh))) <= getpos_v4[k] && getpos_v4[k] < len(sent(msgCh)) && msg_v4(sent(msgCh)[getpos_v4[k]], r.name) && key_v4(sent(msgCh)[getpos_v4[k]]) == k
+//@ assert at "if filter[spb.AFTType_MPLS] {" [done-v4-before-mpls] (old(filter[spb.AFTType_ALL]) || old(filter[spb.AFTType_IPV4])) ==> forall k in dom(r.r.Afts.Ipv4Entry) :: old(len(sent(msgCh))) <= getpos_v4[k] && getpos_v4[k] < len(sent(msgCh)) && msg_v4(sent(msgCh)[getpos_v4[k]], r.name) && key_v4(sent(msgCh)[getpos_v4[k]]) == k
+//@ assert at "if filter[spb.AFTType_MPLS] {" [done-v6-before-mpls] (old(filter[spb.AFTType_ALL]) || old(filter[spb.AFTType_IPV6])) ==> forall k in dom(r.r.Afts.Ipv6Entry) :: old(len(sent(msgCh))) <= getpos_v6[k] && getpos_v6[k] < len(sent(msgCh)) && msg_v6(sent(msgCh)[getpos_v6[k]], r.name) && key_v6(sent(msgCh)[getpos_v6[k]]) == k
+//@ assert at "if filter[spb.AFTType_NEXTHOP_GROUP] {" [done-v4-before-nhg] (old(filter[spb.AFTType_ALL]) || old(filter[spb.AFTType_IPV4])) ==> forall k in dom(r.r.Afts.Ipv4Entry) :: old(len(sent(msgCh))) <= getpos_v4[k] && getpos_v4[k] < len(sent(msgCh)) && msg_v4(sent(msgCh)[getpos_v4[k]], r.name) && key_v4(sent(msgCh)[getpos_v4[k]]) == k
+//@ assert at "if filter[spb.AFTType_NEXTHOP_GROUP] {" [done-v6-before-nhg] (old(filter[spb.AFTType_ALL]) || old(filter[spb.AFTType_IPV6])) ==> forall k in dom(r.r.Afts.Ipv6Entry) :: old(len(sent(msgCh))) <= getpos_v6[k] && getpos_v6[k] < len(sent(msgCh)) && msg_v6(sent(msgCh)[getpos_v6[k]], r.name) && key_v6(sent(msgCh)[getpos_v6[k]]) == k
+//@ assert at "if filter[spb.AFTType_NEXTHOP_GROUP] {" [done-mpls-before-nhg] (old(filter[spb.AFTType_ALL]) || old(filter[spb.AFTType_MPLS])) ==> forall k in dom(r.r.Afts.LabelEntry) :: old(len(sent(msgCh))) <= getpos_mpls[k] && getpos_mpls[k] < len(sent(msgCh)) && msg_mpls(sent(msgCh)[getpos_mpls[k]], r.name) && key_mpls(sent(msgCh)[getpos_mpls[k]]) == k
+//@ assert at "if filter[spb.AFTType_NEXTHOP] {" [done-v4-before-nh] (old(filter[spb.AFTType_ALL]) || old(filter[spb.AFTType_IPV4])) ==> forall k in dom(r.r.Afts.Ipv4Entry) :: old(len(sent(msgCh))) <= getpos_v4[k] && getpos_v4[k] < len(sent(msgCh)) && msg_v4(sent(msgCh)[getpos_v4[k]], r.name) && key_v4(sent(msgCh)[getpos_v4[k]]) == k
+//@ assert at "if filter[spb.AFTType_NEXTHOP] {" [done-v6-before-nh] (old(filter[spb.AFTType_ALL]) || old(filter[spb.AFTType_IPV6])) ==> forall k in dom(r.r.Afts.Ipv6Entry) :: old(len(sent(msgCh))) <= getpos_v6[k] && getpos_v6[k] < len(sent(msgCh)) && msg_v6(sent(msgCh)[getpos_v6[k]], r.name) && key_v6(sent(msgCh)[getpos_v6[k]]) == k
+//@ assert at "if filter[spb.AFTType_NEXTHOP] {" [done-mpls-before-nh] (old(filter[spb.AFTType_ALL]) || old(filter[spb.AFTType_MPLS])) ==> forall k in dom(r.r.Afts.LabelEntry) :: old(len(sent(msgCh))) <= getpos_mpls[k] && getpos_mpls[k] < len(sent(msgCh)) && msg_mpls(sent(msgCh)[getpos_mpls[k]], r.name) && key_mpls(sent(msgCh)[getpos_mpls[k]]) == k
+//@ assert at "if filter[spb.AFTType_NEXTHOP] {" [done-nhg-before-nh] (old(filter[spb.AFTType_ALL]) || old(filter[spb.AFTType_NEXTHOP_GROUP])) ==> forall k in dom(r.r.Afts.NextHopGroup) :: old(len(sent(msgCh))) <= getpos_nhg[k] && getpos_nhg[k] < len(sent(msgCh)) && msg_nhg(sent(msgCh)[getpos_nhg[k]], r.name) && key_nhg(sent(msgCh)[getpos_nhg[k]]) == k
+//@ assigns sent(msgCh), recvd(stopCh), getpos_v4, getpos_v6, getpos_mpls, getpos_nhg, getpos_nh
+//@ props C07 C11:lock C12:safety
+// ---- END Get (C07) ----
 // ---- generated by /verif/tools/gen_rib_contracts.py (five AFT tables, one shape) ----
 // separateAfts: the candidate shares no table with the installed RIB (it is freshly built by candidateRIB).
 //@ pred separateAfts(C *aft.Afts, A *aft.Afts) = C != A && (C.Ipv4Entry == nil || C.Ipv4Entry != A.Ipv4Entry) && (C.Ipv6Entry == nil || C.Ipv6Entry != A.Ipv6Entry) && (C.LabelEntry == nil || C.LabelEntry != A.LabelEntry) && (C.NextHopGroup == nil || C.NextHopGroup != A.NextHopGroup) && (C.NextHop == nil || C.NextHop != A.NextHop)
